@@ -68,7 +68,9 @@ Content == <<
     Ct("junk",  FALSE, {}, 0, 0),     \* 18  J1  no record header
     Ct("reg",   TRUE, {1}, 0, 1),     \* 19  R1' the register R1 (same base, same ops) serialised to other bytes
     Ct("reg",   TRUE, {5}, 0, 2),     \* 20  R6  ops {5}: a valid register with ANOTHER base (other owner, name, permissions)
-    Ct("pad",   TRUE, {21}, 5, 2) >>  \* 21  P6  counter 5: a validly signed scratchpad of a FOREIGN owner
+    Ct("pad",   TRUE, {21}, 5, 2),    \* 21  P6  counter 5: a validly signed scratchpad of a FOREIGN owner
+    Ct("txn",   TRUE, {3}, 0, 0),     \* 22  T6  [t3]     (a third transaction: unions of more than two -- seeded/C05-9)
+    Ct("txn",   TRUE, {2, 3}, 0, 0) >> \* 23  T7  [t2,t3]
 CId == 1..Len(Content)
 Foreign == {c \in CId : Content[c].b = 2}
 \* the items of a value as a multiset (sorted sequence); only T4 lists an item twice
